@@ -43,6 +43,18 @@ def facts_comp(vc, j):
     c.fact(BL(j) >= 1)
     c.fact(z3.And(AL(j) >= 1, AL(j) <= BL(j)))
     c.fact(MT(j) >= 0)
+    if c.aux.get("plain"):
+        c.fact(z3.Not(ENCF(j)))
+    if c.aux.get("accepted") and not c.aux.get("in_accepted"):
+        # the writer accepted the file: every length field fits its width (else OverflowError)
+        c.aux["in_accepted"] = True
+        try:
+            tl = tags_rope(vc, j).length_term()
+            c.fact(tl <= 255)
+            c.fact(entry_len(vc, j) <= 255)
+            c.fact(z3.And(rawlen(vc, j) < 2 ** 32, AL(j) < 2 ** 32))
+        finally:
+            c.aux["in_accepted"] = False
 
 
 def facts_tag(vc, j, t):
@@ -50,27 +62,42 @@ def facts_tag(vc, j, t):
     j, t = jt(j), jt(t)
     c.fact(z3.And(TK(j, t) >= 0, TK(j, t) <= 255))
     c.fact(TVL(j, t) >= 0)
+    if c.aux.get("accepted"):
+        c.fact(TVL(j, t) <= 255)
+
+
+def distinct_tags(vc, j):
+    """the tag ids of component j are pairwise distinct (keys of a dict)"""
+    c = vc.ctx
+    j = jt(j)
+    a, b = z3.Ints("a!tk b!tk")
+    c.fact(z3.ForAll([a, b], z3.Implies(z3.And(0 <= a, a < b, b < MT(j)), TK(j, a) != TK(j, b)),
+                     patterns=[z3.MultiPattern(TK(j, a), TK(j, b))]))
 
 
 def blob(vc, j):
     j = jt(j)
-    return Rope([O("blob[%s]" % j.sexpr(), BL(j), lambda x, j=j: BLOBB(j, x))])
+    return Rope([O("blob", BL(j), lambda x, j=j: BLOBB(j, x), params=(SInt(j),))])
 
 
 def tagval(vc, j, t):
     j, t = jt(j), jt(t)
-    return Rope([O("tv[%s,%s]" % (j.sexpr(), t.sexpr()), TVL(j, t), lambda x, j=j, t=t: TVB(j, t, x))])
+    return Rope([O("tv", TVL(j, t), lambda x, j=j, t=t: TVB(j, t, x), params=(SInt(j), SInt(t)))])
 
 
 def rawlen(vc, j):
     """stored length of component j (independent of the key)"""
     j = jt(j)
+    if vc.ctx.aux.get("plain"):
+        return BL(j)
     return z3.If(ENCF(j), BL(j) + ((-BL(j)) % 16), BL(j))
 
 
 def RAW(vc, j, key):
     """the stored form of component j under `key`, as callers of get_raw_data see it"""
     j = jt(j)
+    if vc.ctx.aux.get("plain"):
+        return blob(vc, j)          # contract of get_raw_data for a component not marked for encryption
     return vc.uf_bytes("RAW", (SInt(j), key), rawlen(vc, j))
 
 
@@ -82,8 +109,12 @@ def raw_def(vc, j, key):
     return b
 
 
-def make_file(vc, M, with_stub=True, name="f"):
+def make_file(vc, M, with_stub=True, name="f", plain=False, accepted=False):
     """an abstract Bf3File (symbolic mode)"""
+    if plain:
+        vc.ctx.aux["plain"] = True
+    if accepted:
+        vc.ctx.aux["accepted"] = True
     n = vc.int("n", 0)
     Comp = M.Bf3Component
 
@@ -92,9 +123,10 @@ def make_file(vc, M, with_stub=True, name="f"):
         jj = jt(j)
         comp = Comp.__new__(Comp)
         comp._j = SInt(jj)
-        comp.description = AbsDict("desc[%s]" % jj.sexpr(), SInt(MT(jj)),
+        comp.description = AbsDict("desc", SInt(MT(jj)),
                                    lambda t, jj=jj: (facts_tag(vc, jj, t), SInt(TK(jj, jt(t))))[1],
-                                   lambda t, jj=jj: (facts_tag(vc, jj, t), tagval(vc, jj, t))[1])
+                                   lambda t, jj=jj: (facts_tag(vc, jj, t), tagval(vc, jj, t))[1],
+                                   distinct_bound=SInt(MT(jj)), params=(SInt(jj),))
         comp.blob = blob(vc, jj)
         comp.actual_len = SInt(AL(jj))
         comp.encrypt_by_session_key = SBool(ENCF(jj))
@@ -128,21 +160,12 @@ def tags_rope(vc, j):
         facts_tag(vc, jj, tt)
         return vc.cat(be_total(vc, SInt(TK(jj, tt)), 1), be_total(vc, SInt(TVL(jj, tt)), 1), tagval(vc, jj, tt))
 
-    return bigcat("tags[%s]" % jj.sexpr(), 0, SInt(MT(jj)), el, lambda t: 2 + TVL(jj, jt(t)))
+    return bigcat("tags", 0, SInt(MT(jj)), el, lambda t: 2 + TVL(jj, jt(t)), params=(SInt(jj),), min_len=2)
 
 
-SUMRAW = z3.Function("SUMRAW", I, I)     # SUMRAW(i) = sum_{j<i} rawlen(j)
-
-
-def sumraw(vc, i):
-    """sum of the stored lengths of components 0..i-1 (recursive definition, unfolded on demand)"""
-    c = vc.ctx
-    i = jt(i)
-    c.fact(SUMRAW(z3.IntVal(0)) == 0)
-    c.fact(z3.Implies(i >= 1, SUMRAW(i) == SUMRAW(i - 1) + rawlen(vc, i - 1)))
-    c.fact(z3.Implies(i >= 0, SUMRAW(i + 1) == SUMRAW(i) + rawlen(vc, i)))
-    c.fact(z3.Implies(i >= 0, SUMRAW(i) >= 0))
-    return SUMRAW(i)
+def sumraw(vc, i, key=None):
+    """sum of the stored lengths of components 0..i-1 = length of the first i payloads"""
+    return payloads_rope(vc, 0, i, key if key is not None else ZERO16).length_term()
 
 
 def entry_rope(vc, j, first_adr, key):
@@ -171,12 +194,12 @@ def dir_entries_rope(vc, lo, hi, first_adr, key):
         e = entry_rope(vc, j, first_adr, key)
         return vc.cat(be_total(vc, e.length_term(), 1), e)
     fa = first_adr if isinstance(first_adr, (int, SInt)) else SInt(core.toint(first_adr))
-    return bigcat("dir", lo, hi, el, lambda j: 1 + entry_len(vc, j), params=(fa, key))
+    return bigcat("dir", lo, hi, el, lambda j: 1 + entry_len(vc, j), params=(fa, key), min_len=46)
 
 
 def payloads_rope(vc, lo, hi, key):
     name = "join|" + Rope.of(RAW(vc, BC.J, key)).key()
-    return bigcat(name, lo, hi, lambda j: RAW(vc, j, key), lambda j: rawlen(vc, jt(j)))
+    return bigcat(name, lo, hi, lambda j: RAW(vc, j, key), lambda j: rawlen(vc, jt(j)), min_len=1)
 
 
 def concretise_comps(model, n, max_n=6, max_len=300, max_tags=6):
